@@ -1,10 +1,19 @@
 #!/bin/sh
-# Build /repo (or $1) with the pinned configuration and run its test suite.
-# A first failing run is repeated once: a few tests read files other tests write.
+# Build /repo (or $1) with the pinned configuration and run its test suite;
+# succeed iff every test of BASELINE.json's stable_pass list passes.
 R=${1:-/repo}
 cmake --build $R/_build -j16 > /tmp/repo_build.log 2>&1 || { tail -20 /tmp/repo_build.log; echo BUILD-FAILED; exit 1; }
-ctest --test-dir $R/_build -j8 --timeout 900 > /tmp/repo_ctest.log 2>&1 || \
-ctest --test-dir $R/_build -j8 --timeout 900 > /tmp/repo_ctest.log 2>&1
+ctest --test-dir $R/_build -j8 --timeout 900 --output-junit /tmp/repo_junit.xml > /tmp/repo_ctest.log 2>&1 || \
+ctest --test-dir $R/_build -j1 --timeout 900 --output-junit /tmp/repo_junit.xml > /tmp/repo_ctest.log 2>&1  # the suite has order races under -j
 grep -E "tests passed|tests failed" /tmp/repo_ctest.log
-grep -E "\(Failed\)|\(Timeout\)" /tmp/repo_ctest.log | head
-grep -q "100% tests passed" /tmp/repo_ctest.log
+python3 - <<'PY'
+import json, sys, xml.etree.ElementTree as ET
+stable = {s.split('::')[0] for s in json.load(open('/root/.vp/BASELINE.json'))['stable_pass']}
+res = {}
+for tc in ET.parse('/tmp/repo_junit.xml').getroot().iter('testcase'):
+    res[tc.get('name')] = tc.get('status') == 'run' and tc.find('failure') is None
+bad = sorted(n for n in stable if not res.get(n, False))
+print("stable tests: %d, passing: %d" % (len(stable), len(stable) - len(bad)))
+for b in bad[:20]: print("  STABLE TEST FAILED:", b)
+sys.exit(1 if bad else 0)
+PY
